@@ -220,6 +220,8 @@ def merge(g, a, b):
             items.append(merge(g, x, y))
         ln = a.len if same_term(a.len, b.len) else z3.If(g, a.len, b.len)
         return VList(items, ln, a.elem)
+    if isinstance(a, VOpaque) and isinstance(b, VOpaque) and hasattr(a.what, "merge_with"):
+        return VOpaque(a.what.merge_with(g, b.what))
     if isinstance(a, VOpaque) or isinstance(b, VOpaque):
         return a if isinstance(a, VOpaque) else b
     raise Unsupported("merge %r / %r" % (type(a).__name__, type(b).__name__))
@@ -247,6 +249,8 @@ def _proj_eq(p, q):
         if x[0] == "downcast" and x[1] != y[1]:
             return False
         if x[0] == "index" and not same_term(x[1], y[1]):
+            return False
+        if x[0] == "slice" and not (same_term(x[1], y[1]) and same_term(x[2], y[2])):
             return False
     return True
 
@@ -332,6 +336,7 @@ class Executor:
             self.enums.update(enums)
         self.K = K
         self.assumes = []
+        self.name_guards = True
         self.exit_guards = []     # path conditions of reaching the exit: assumed for goals, NOT for panic edges
         self.obligs = []
         self.models = []          # [(compiled regex, handler, label)]
@@ -621,6 +626,10 @@ class Executor:
                     v = v.val
                 else:
                     v = self._read_raw(st, v.fid, v.local, v.proj)
+            elif k == "slice":
+                if not isinstance(v, VSeq):
+                    raise Unsupported("sub-slice of %r" % (v,))
+                v = VSeq(v.arr, simp(v.off + p[1]), p[2], v.elem)
             elif k == "index":
                 v = self.index_value(v, p[1])
             elif k == "cindex":
@@ -719,6 +728,21 @@ class Executor:
                     items.append(merge(simp(p[1] == i), new, it))
                 return VList(items, base.len, base.elem)
             raise Unsupported("index write on %r" % (base,))
+        if k == "slice":
+            if not isinstance(base, VSeq):
+                raise Unsupported("sub-slice write on %r" % (base,))
+            start, ln = p[1], p[2]
+            if len(proj) > 1:
+                inner = self._update(st, VSeq(base.arr, simp(base.off + start), ln, base.elem), proj[1:], val)
+            else:
+                inner = val
+            if not isinstance(inner, VSeq):
+                raise Unsupported("sub-slice write of %r" % (inner,))
+            cap = getattr(self, "byte_cap", None) or 16
+            arr = base.arr
+            for j in range(cap):
+                arr = z3.Store(arr, simp(base.off + start + j), z3.If(j < ln, inner.at(I(j)), z3.Select(base.arr, simp(base.off + start + j))))
+            return VSeq(arr, base.off, base.len, base.elem)
         if k == "deref":
             raise Unsupported("write through nested reference")
         raise Unsupported("write projection " + k)
@@ -1012,9 +1036,15 @@ class Executor:
         while heap:
             key = heapq.heappop(heap)
             k, _, bb = key
-            s = merge_states(pend.pop(key))
+            incoming = pend.pop(key)
+            s = merge_states(incoming)
             if s is None:
                 continue
+            if len(incoming) > 1 and not is_lit(s.guard) and self.name_guards:
+                # passive form: name the path condition of the join so that later guards stay small
+                gname = z3.Bool("pc!%d" % next(self.fresh))
+                self.assumes.append(gname == s.guard)
+                s.guard = gname
             if len(pend) >= 0:
                 self.stats["blocks"] += 1
             if stops and bb in stops and not first:
